@@ -768,6 +768,14 @@ def poser(prog, run):
             # recognisably wrong: the check reads the leftover variable of an EARLIER loop (one that is over before this one starts) - the same,
             # last, element for every setup that is yielded
             bound_here = {x.id for x in ast.walk(loop.target) if isinstance(x, ast.Name)} | {x.id for s_ in loop.body for x in ast.walk(s_) if isinstance(x, ast.Name) and isinstance(x.ctx, ast.Store)}
+            # ... or reads nothing at all that changes from one iteration to the next (a name bound once before the loop, e.g. to the FIRST
+            # setup's algorithms): the same object is checked for every setup
+            read = {x.id for s_ in checking for x in ast.walk(s_) if isinstance(x, ast.Name) and isinstance(x.ctx, ast.Load)}
+            inner_bound = {x.id for s_ in checking for x in ast.walk(s_) if isinstance(x, ast.Name) and isinstance(x.ctx, ast.Store)}
+            if not (read & (bound_here - inner_bound)) and not any(isinstance(x, ast.Attribute) and isinstance(x.value, ast.Name) and x.value.id == "self" for s_ in checking for x in ast.walk(s_)):
+                oky = False
+                why_dep = (f"the check before `yield {yv}` reads nothing that changes with the loop (`{', '.join(sorted(read - inner_bound - {'ValueError'}))[:60]}` are bound before it): "
+                           f"the same object is checked for every setup that is yielded")
             for other in ast.walk(g.node):
                 if isinstance(other, ast.For) and other is not loop and getattr(other, "end_lineno", 0) < loop.lineno and not astq._contains(other, loop):
                     left = {x.id for x in ast.walk(other.target) if isinstance(x, ast.Name)} - bound_here
